@@ -229,8 +229,14 @@ def c12md5_run(tid, wcfg, cfgline, seed):
     rnd = random.Random(seed)
     w = World(wcfg)
     rec = R.Recorder(w, tid, cfgline)
-    rec.step({'k': 'boot', 'c': 0}, 0)
+    # in a third of the runs the operator is faster than the start-up call: manual start first, the start-up call arrives
+    # some time later (whatever state the peering is in by then)
+    late_boot = rnd.random() < 0.35
+    rec.step({'k': 'start' if late_boot else 'boot', 'c': 0}, 0)
     for _ in range(rnd.randint(15, 45)):
+        if late_boot and w.can({'k': 'boot'}) and rnd.random() < 0.25:
+            rec.step({'k': 'boot', 'c': 0}, 0)
+            continue
         conns = [(i, W.connectors[i - 1]) for i in w.alive]
         pending = [i for i, k in conns if k.state == 'connecting']
         live = [i for i, k in conns if k.state == 'connected']
@@ -511,6 +517,10 @@ C05_CONFIGS = [
     dict(las=65001, ras=65002, four_bytes_as=True, hosts=['127.0.0.1', '10.0.0.1', '192.168.1.1']),
     dict(las=65001, ras=65002, four_bytes_as=True, hosts=['2001:db8::1', '10.0.0.1']),
     dict(las=65001, ras=65002, four_bytes_as=True, hosts=['10.0.0.9', '10.0.0.1', 'raise']),
+    # the wildcard local address (the option's default): the identifier is taken from the first connection's local address and
+    # stays, whatever address later connections leave from (a multi-homed host whose route to the peer changed)
+    dict(las=65001, ras=65002, four_bytes_as=True, local_addr='0.0.0.0', hosts=['192.0.2.1', '198.51.100.7', '10.0.0.1']),
+    dict(las=65001, ras=65002, four_bytes_as=True, local_addr='0.0.0.0', hosts=['198.51.100.7', '192.0.2.1', '198.51.100.7']),
     dict(las=65001, ras=65002, four_bytes_as=True, add_path='ipv4_receive', caps=['graceful_restart'], afi_safi=['ipv4', 'evpn']),
 ]
 
